@@ -6,6 +6,7 @@ import numpy as np
 
 INF = float("inf")
 NAN = float("nan")
+FMAX = float(np.finfo(float).max)
 
 # per-variable bound patterns: name -> (lb, ub, x0_in, x0_on, x0_out)
 PATTERNS = {
@@ -19,6 +20,9 @@ PATTERNS = {
     "oddn": (-0.8, 0.3, 0.1, 0.3, -1.5),
     # large magnitude: radii and steps of order 1e5 (rounding of constraint residuals grows with the step)
     "big": (-2.0 ** 20, 2.0 ** 20, 2.0 ** 18 + 0.25, -2.0 ** 20, 2.0 ** 21),
+    # the largest finite numbers used as "no bound": sums and differences of the bounds overflow
+    "fmax": (-FMAX, FMAX, 1.0, -FMAX, 0.25),
+    "fmaxup": (0.25 * FMAX, FMAX, 0.5 * FMAX, FMAX, 0.0),
     "fixed": (0.5, 0.5, 0.5, 0.5, 2.0),
     "fixulp": (0.5, float(np.nextafter(0.5, 1.0)), 0.5, 0.5, -1.0),
 }
